@@ -473,6 +473,50 @@ Definition case_order (fixed : bool) (cap : N) (ops : list Z) : list Z :=
   let e' := rounds fixed (length ops) e in
   obs ++ [(-7)%Z] ++ map (fun t => Z.of_N (tid t)) (edone e') ++ [(-7)%Z; Z.of_N (total_queued e')].
 
+(* executor history driven through the verification hook (paused executor, real submit / find_task /
+   balance in a chosen interleaving): task code = submit, 10+w = worker w's find_task (the task found
+   counts as executed), 30+w = worker w's balance, anything else = total_queued.
+   Final dump: passes of find_task over all workers until nothing is found, then total_queued. *)
+Fixpoint run_hist (fixed : bool) (cap : N) (e : exec) (next : N) (ops : list Z) : exec * list Z :=
+  match ops with
+  | [] => (e, [])
+  | o :: r =>
+      if (1000 <=? o)%Z then
+        let '(ok, e') := submit cap e (dec_task next o) in
+        let '(ef, obs) := run_hist fixed cap e' (next + 1) r in
+        (ef, (if ok then 1%Z else 0%Z) :: obs)
+      else if (30 <=? o)%Z then
+        run_hist fixed cap (wstep fixed e (Balance (Z.to_nat (o - 30)))) next r
+      else if (10 <=? o)%Z then
+        match find_task fixed e (Z.to_nat (o - 10)) with
+        | Some (t, e') => let '(ef, obs) := run_hist fixed cap e' next r in (ef, Z.of_N (tid t) :: obs)
+        | None => let '(ef, obs) := run_hist fixed cap e next r in (ef, (-1)%Z :: obs)
+        end
+      else
+        let '(ef, obs) := run_hist fixed cap e next r in (ef, Z.of_N (total_queued e) :: obs)
+  end.
+
+Fixpoint drain_pass (fixed : bool) (ws : list nat) (e : exec) : exec * list Z :=
+  match ws with
+  | [] => (e, [])
+  | w :: r =>
+      match find_task fixed e w with
+      | Some (t, e') => let '(ef, obs) := drain_pass fixed r e' in (ef, Z.of_N (tid t) :: obs)
+      | None => drain_pass fixed r e
+      end
+  end.
+Fixpoint drain_all (fixed : bool) (fuel : nat) (e : exec) : exec * list Z :=
+  match fuel with
+  | O => (e, [])
+  | S k =>
+      let '(e1, o1) := drain_pass fixed (seq 0 (length (eqs e))) e in
+      let '(e2, o2) := drain_all fixed k e1 in (e2, o1 ++ o2)
+  end.
+Definition case_hist (fixed : bool) (nw cap : N) (ops : list Z) : list Z :=
+  let '(e, obs) := run_hist fixed cap (init (N.to_nat nw)) 0 ops in
+  let '(e', dump) := drain_all fixed (S (N.to_nat (total_queued e))) e in
+  obs ++ [(-7)%Z] ++ dump ++ [(-7)%Z; Z.of_N (total_queued e')].
+
 (* the stage function shared with the harness: fails on x = 13 (mod 16), else 3x+1 *)
 Definition stage (x : Z) : option Z :=
   if (x mod 16 =? 13)%Z then None else Some (3 * x + 1)%Z.
@@ -502,7 +546,7 @@ Definition case_coll (maxb : N) (ops : list Z) : list Z :=
   let c := run_coll maxb (mkC [] []) ops in
   flat_map (fun b => b ++ [(-1)%Z]) (cout c) ++ [(-2)%Z] ++ cbuf c.
 
-(* kind 0 queue, 1 submit, 2 parallel_map / process_batch, 3 reduce, 4 collector, 5 single-worker execution order *)
+(* kind 0 queue, 1 submit, 2 parallel_map / process_batch, 3 reduce, 4 collector, 5 single-worker execution order, 6 hooked executor history *)
 Definition run_case (fixed : bool) (kind a b : N) (ops : list Z) : list Z :=
   match kind with
   | 0 => case_queue fixed a b ops
@@ -510,5 +554,6 @@ Definition run_case (fixed : bool) (kind a b : N) (ops : list Z) : list Z :=
   | 2 => case_pmap ops
   | 3 => case_reduce a ops
   | 4 => case_coll a ops
-  | _ => case_order fixed a ops
+  | 5 => case_order fixed a ops
+  | _ => case_hist fixed a b ops
   end.
